@@ -396,8 +396,8 @@ def main(tier, seed, replay=None):
             hs = res.tagged("H")
             if q and nxt == "HHNext":
                 hs = par.sample(hs, 5, seed)
-            if len(hs) > 60000:
-                k = len(hs) // 60000 + 1
+            if len(hs) > 12000:
+                k = len(hs) // 12000 + 1
                 hs = par.sample(hs, k, seed)
             groups = hist.group_by_schedule(hs, sched_key, exp_obs)
             jobs = [(root_path, L, sched, exps,
